@@ -51,5 +51,22 @@ PROPS["C06"] = dict(
                  "filler data NAL (type 12) is excluded: dropped by design"],
 )
 
+PROPS["C03"] = dict(
+    bin="race", level="exploration", shards={"quick": 16, "thorough": 16},
+    timeout={"quick": 900, "thorough": 3000},
+    rule=("forced interleavings through hook gates (a goroutine is held at a named point between two critical sections while the other "
+          "party runs to completion): A stop(StopConsume|Stream.Close|Unregist) x delivery goroutine (5 orderings x RTP|FLV), B stream "
+          "close x attach (5 orderings incl. attach-after-close), C Remove x RemoveAndCloseAll (2), D converter Close x converter loop "
+          "(3 orderings x rtp demuxer|flv muxer|ts muxer), each repeated; E concurrent random histories (2-4 workers, 1-3 streams, "
+          "attach/stop/publish/close/replace) with seeded delays at 14 hook points. A case is distinct by its scenario name / history shape"),
+    level_text=("Schedule exploration of the real media package: every named two-party ordering is forced deterministically with gates and "
+                "observed, plus perturbed concurrent histories; oracle = close-exactly-once ledger, consumer count, goroutine enter/exit "
+                "ledger, goroutine-profile state (parked in sync.Cond.Wait with no possible waker = violation; else inconclusive)"),
+    level_note="library level (media, converters); transports and per-protocol connection counters are exercised at service level in C12/C20/C01-transports",
+    technique="runtime monitoring with hook-gated schedule enumeration + seeded perturbation; ledger/goroutine-state oracle; race detector informational",
+    assumptions=["hook points lie between critical sections, so every forced ordering is one the Go scheduler can produce",
+                 "'promptly' is decided on state (parked forever) not on wall-clock; watchdog expiry alone is inconclusive"],
+)
+
 # properties not claimed, with the reason (kept current)
 NOT_APPLICABLE = {}
